@@ -30,6 +30,17 @@ Definition enc_inter (g : graph) (withtl : bool) (l : list (Z * Z)) : list Z :=
 Definition enc_event (e : event) : list Z :=
   match e with (t, (u, v), op) => [u; v; zb op; t] end.
 
+Fixpoint sorted_evs (l : list event) : bool :=
+  match l with
+  | x :: ((y :: _) as r) => (ev_time x <=? ev_time y) && sorted_evs r
+  | _ => true
+  end.
+Fixpoint nodup_evs (l : list event) : bool :=
+  match l with
+  | [] => true
+  | (t, k, op) :: r => negb (has_event t k op r) && nodup_evs r
+  end.
+
 Definition regs := list graph.
 Definition getr (rs : regs) (r : Z) : graph := nth (Z.to_nat r) rs (empty_graph false true).
 Fixpoint setr_nat (rs : regs) (n : nat) (g : graph) : regs :=
@@ -61,6 +72,12 @@ Definition step_op (rs : regs) (op : list Z) : regs * list Z :=
   | 4 :: r :: kind :: _ =>
       let g := getr rs r in
       (setr rs r (if kind =? 0 then clear g else clear_edges g), [])
+  | 5 :: r :: n :: _ =>
+      (* poke: mutate (in place) the attribute values of node n and of the graph in register r *)
+      let g := getr rs r in
+      let g1 := if amem Z.eqb n (g_nodes g) then with_nodes g (aset Z.eqb n 777 (g_nodes g)) else g in
+      (setr rs r (with_attr g1 777), [])
+  | 6 :: r :: a :: _ => (setr rs r (with_attr (getr rs r) a), [])
   (* --- queries --- *)
   | 10 :: r :: u :: v :: ht :: t :: _ => (rs, [zb (has_interaction (getr rs r) u v (oz ht t))])
   | 11 :: r :: kind :: n :: ht :: t :: _ =>
@@ -104,6 +121,9 @@ Definition step_op (rs : regs) (op : list Z) : regs * list Z :=
   | 25 :: r :: _ => (rs, [zb (is_empty (getr rs r))])
   | 26 :: r :: ht :: t :: _ => (rs, flat_pairs (non_interactions (getr rs r) (oz ht t)))
   | 27 :: r :: _ => let d := avg_number_of_nodes (getr rs r) in (rs, [fst d; snd d])
+  | 29 :: r :: _ =>
+      let st := stream (getr rs r) in
+      (rs, [zb (sorted_evs st); zb (nodup_evs st)])
   | 28 :: r :: _ => let g := getr rs r in (rs, [zb (g_dir g); zb (g_rem g); g_attr g; zb (g_frozen g)])
   (* --- derived graphs --- *)
   | 30 :: src :: dst :: a :: hb :: b :: _ =>
